@@ -278,6 +278,150 @@ Proof.
     destruct (str_eqb hc (s2l "github.com") ||| str_eqb hc (s2l "bitbucket.org")); reflexivity.
 Qed.
 
+(* ---------- any text that starts "type::scheme://" ---------- *)
+Lemma index_byte_some_split c : forall t j, index_byte c t = Some j ->
+  exists t1 t2, t = t1 ++ c :: t2 /\ ~ In c t1.
+Proof.
+  induction t as [|x r IH]; intros j H; [discriminate|]. cbn [index_byte] in H.
+  destruct (Ascii.eqb_spec x c) as [->|Hne].
+  - exists [], r. split; [reflexivity|intros []].
+  - destruct (index_byte c r) as [k|] eqn:E; [|discriminate].
+    destruct (IH k eq_refl) as (t1 & t2 & -> & Hn). exists (x :: t1), t2. split; [reflexivity|].
+    intros [H1|H1]; [congruence|contradiction].
+Qed.
+
+Lemma index_byte_none_notin c : forall t, index_byte c t = None -> ~ In c t.
+Proof.
+  induction t as [|x r IH]; intros H; [intros []|]. cbn [index_byte] in H.
+  destruct (Ascii.eqb_spec x c) as [->|Hne]; [discriminate|].
+  destruct (index_byte c r); [discriminate|]. intros [H1|H1]; [congruence|]. now apply IH.
+Qed.
+
+(* splitSubPath leaves the "scheme://" head of such a text in place *)
+Lemma split_sub_keeps_scheme pre t :
+  csf pre = true -> ~ In c_qmark pre ->
+  exists t', fst (split_sub_path (pre ++ css ++ t)) = pre ++ css ++ t'.
+Proof.
+  intros Hc Hq. unfold split_sub_path.
+  assert (Hqh : forall t0, ~ In c_qmark t0 -> ~ In c_qmark (pre ++ css ++ t0)).
+  { intros t0 H0 H. apply in_app_or in H as [H|H]; [contradiction|].
+    apply in_app_or in H as [H|H]; [cbn in H; destruct H as [H|[H|[H|[]]]]; discriminate|contradiction]. }
+  assert (Hhead : exists t0 q, pre ++ css ++ t = (pre ++ css ++ t0) ++ q /\
+            firstn (match index_byte c_qmark (pre ++ css ++ t) with Some i => i | None => length (pre ++ css ++ t) end) (pre ++ css ++ t)
+            = pre ++ css ++ t0).
+  { destruct (index_byte c_qmark t) as [j|] eqn:E.
+    - destruct (index_byte_some_split c_qmark t j E) as (t1 & t2 & -> & Hn1).
+      exists t1, (c_qmark :: t2). split; [now rewrite <- !app_assoc|].
+      replace (pre ++ css ++ t1 ++ c_qmark :: t2) with ((pre ++ css ++ t1) ++ c_qmark :: t2) by (now rewrite <- !app_assoc).
+      rewrite (index_byte_app _ _ _ (Hqh t1 Hn1)). apply firstn_app_exact.
+    - pose proof (index_byte_none_notin c_qmark t E) as Hn.
+      exists t, []. split; [now rewrite app_nil_r|].
+      rewrite (index_byte_none _ _ (Hqh t Hn)). apply firstn_all. }
+  destruct Hhead as (t0 & q & Hs & Hf). rewrite Hf.
+  change [c_colon; slash; slash] with css.
+  assert (Hcss : index_of css (pre ++ css ++ t0) = Some (length pre)).
+  { unfold css. cbn [app]. apply css_first. exact Hc. }
+  rewrite Hcss.
+  assert (Hskip : skipn (length pre + 3) (pre ++ css ++ t0) = t0).
+  { rewrite app_assoc. apply skipn_app_len. rewrite app_length. reflexivity. }
+  rewrite Hskip. change [slash; slash] with dslash.
+  destruct (index_of dslash t0) as [i|]; [|exists t; reflexivity].
+  assert (Hfi : firstn (i + (length pre + 3)) (pre ++ css ++ t) = pre ++ css ++ firstn i t).
+  { rewrite app_assoc, firstn_app, app_length. change (length css) with 3.
+    replace (i + (length pre + 3) - (length pre + 3)) with i by lia.
+    rewrite firstn_all2 by (rewrite app_length; change (length css) with 3; lia). now rewrite <- app_assoc. }
+  rewrite Hfi.
+  destruct (index_byte c_qmark (skipn (i + (length pre + 3) + 2) (pre ++ css ++ t))) as [j|].
+  - eexists. cbn [fst]. rewrite <- !app_assoc. reflexivity.
+  - eexists. cbn [fst]. reflexivity.
+Qed.
+
+(* ... and the registry-address parser refuses every such text *)
+Lemma module_source_rejects_schemed pre t :
+  csf pre = true -> ~ In c_qmark pre -> ~ In slash pre ->
+  all_ascii (pre ++ [c_colon]) = true -> to_lower (pre ++ [c_colon]) = pre ++ [c_colon] ->
+  parse_module_source (pre ++ css ++ t) = Rej.
+Proof.
+  intros Hc Hq Hs Ha Hl. unfold parse_module_source.
+  destruct (split_sub_keeps_scheme pre t Hc Hq) as [t' Ht'].
+  destruct (split_sub_path (pre ++ css ++ t)) as [raw sub]. cbn [fst] in Ht'. subst raw.
+  destruct (has_prefix _ dotdotslash); [reflexivity|].
+  set (h0 := pre ++ [c_colon]).
+  assert (Hparts : split_on slash (pre ++ css ++ t') = h0 :: [] :: split_on slash t').
+  { replace (pre ++ css ++ t') with (h0 ++ slash :: ([] ++ slash :: t'))
+      by (unfold h0, css; rewrite <- !app_assoc; reflexivity).
+    rewrite split_on_app_sep.
+    - rewrite split_on_app_sep by (intros []). reflexivity.
+    - unfold h0. intros H. apply in_app_or in H as [H|[H|[]]]; [contradiction|discriminate]. }
+  rewrite Hparts.
+  pose proof (hfc_not_out h0 Ha Hl) as Hno.
+  destruct (split_on slash t') as [|t1 [|t2 [|t3 T']]]; try reflexivity.
+  - cbn [rbind]. replace (str_eqb default_host (s2l "github.com") ||| str_eqb default_host (s2l "bitbucket.org")) with false by reflexivity.
+    destruct (registry_name_ok h0); reflexivity.
+  - destruct (host_for_comparison h0) as [hc| |]; [|reflexivity|congruence]. cbn [rbind].
+    destruct (mem_char dot hc); [|reflexivity]. cbn [rbind].
+    destruct (str_eqb hc (s2l "github.com") ||| str_eqb hc (s2l "bitbucket.org")); reflexivity.
+Qed.
+
+Lemma pre_facts typ scheme :
+  type_okb typ = true -> scheme_ok scheme = true -> to_lower typ = typ -> to_lower scheme = scheme ->
+  let pre := type_prefix typ ++ scheme in
+  csf pre = true /\ ~ In c_qmark pre /\ ~ In slash pre /\ ~ In c_at pre /\
+  all_ascii (pre ++ [c_colon]) = true /\ to_lower (pre ++ [c_colon]) = pre ++ [c_colon].
+Proof.
+  intros Ht Hs Hlt Hls pre.
+  destruct (scheme_ok_chars _ Hs) as [Hsne Hsc].
+  pose proof (fun c H => scheme_chars_not_in scheme c Hsc H) as NS.
+  pose proof (fun c H => alnum_not_in typ c Ht H) as NT.
+  assert (NTP : forall c, (c = slash \/ c = c_qmark) -> ~ In c (type_prefix typ)).
+  { intros c Hc H. unfold type_prefix in H. destruct typ as [|t0 tr]; [destruct H|].
+    apply in_app_or in H as [H|[H|[H|[]]]]; [apply (NT c); [destruct Hc; auto|exact H]|destruct Hc; subst; discriminate|destruct Hc; subst; discriminate]. }
+  assert (Npre : forall c, (c = slash \/ c = c_qmark) -> ~ In c pre).
+  { intros c Hc H. unfold pre in H. apply in_app_or in H as [H|H]; [exact (NTP c Hc H)|apply (NS c); [destruct Hc; auto|exact H]]. }
+  split; [|split; [apply Npre; auto|split; [apply Npre; auto|split; [|split]]]].
+  - unfold pre, type_prefix. destruct typ as [|t0 tr]; [apply csf_nocolon, NS; auto|].
+    rewrite <- app_assoc. cbn [app]. apply (csf_type_scheme (t0 :: tr) scheme); assumption.
+  - unfold pre. intros H. apply in_app_or in H as [H|H].
+    + unfold type_prefix in H. destruct typ as [|t0 tr]; [destruct H|].
+      apply in_app_or in H as [H|[H|[H|[]]]]; try discriminate.
+      revert H. apply (forallb_not_in is_alnum); [exact Ht|reflexivity].
+    + revert H. apply (forallb_not_in scheme_char); [exact Hsc|reflexivity].
+  - unfold pre, all_ascii. rewrite !forallb_app. cbn [forallb].
+    rewrite (forallb_imp _ _ _ scheme_char_ascii Hsc).
+    replace (forallb is_ascii_char (type_prefix typ)) with true; [reflexivity|].
+    unfold type_prefix. destruct typ as [|t0 tr]; [reflexivity|]. rewrite forallb_app.
+    rewrite (forallb_imp _ _ _ alnum_ascii Ht). reflexivity.
+  - unfold pre, to_lower in *. rewrite !map_app, Hls. cbn [map].
+    replace (map lower_char (type_prefix typ)) with (type_prefix typ); [reflexivity|].
+    unfold type_prefix. destruct typ as [|t0 tr]; [reflexivity|]. now rewrite map_app, Hlt.
+Qed.
+
+Lemma app_prefix_notin {A} (x : A) : forall P a r B, a ++ x :: r = P ++ B -> ~ In x P -> exists a', a = P ++ a'.
+Proof.
+  induction P as [|p P IH]; intros a r B E Hn; [now exists a|].
+  destruct a as [|a0 a]; cbn in E.
+  - injection E as -> _. exfalso. apply Hn. now left.
+  - injection E as -> E. destruct (IH a r B E) as [a' ->]; [intros H; apply Hn; now right|]. now exists a'.
+Qed.
+
+Lemma final_split_go_prefix : forall pre_rev after a v sub,
+  final_split_go pre_rev after = Some (a, v, sub) -> exists rest, rev pre_rev ++ after = a ++ c_at :: rest.
+Proof.
+  induction pre_rev as [|c r IH]; intros after a v sub H; [discriminate|]. cbn [final_split_go] in H.
+  assert (Hrec : final_split_go r (c :: after) = Some (a, v, sub) -> exists rest, rev (c :: r) ++ after = a ++ c_at :: rest).
+  { intros H'. destruct (IH _ _ _ _ H') as [rest E]. exists rest. cbn [rev]. now rewrite <- app_assoc. }
+  destruct (Ascii.eqb_spec c c_at) as [->|Hne]; cbn match in H; [|now apply Hrec].
+  destruct (negb (is_empty r) &&& negb (mem_char c_nl r)); [|now apply Hrec].
+  destruct (tail_ok after) as [[v' sub']|]; [|now apply Hrec].
+  injection H as <- <- <-. exists after. cbn [rev]. now rewrite <- app_assoc.
+Qed.
+
+Lemma final_split_prefix s a v sub : final_split s = Some (a, v, sub) -> exists rest, s = a ++ c_at :: rest.
+Proof.
+  unfold final_split. intros H. destruct (final_split_go_prefix _ _ _ _ _ H) as [rest E].
+  exists rest. now rewrite rev_involutive, app_nil_r in E.
+Qed.
+
 (* a well-formed remote value prints as a structured text *)
 Lemma wf_remote_text p sub : wf_remoteb p sub = true ->
   exists typ' scheme host path query,
@@ -345,37 +489,45 @@ Theorem classify_remote p sub :
   wf_remoteb p sub = true ->
   outer_ascii (remote_string p sub) = true -> has_outer_space (remote_string p sub) = false ->
   parse_source (remote_string p sub) = Ok (ARemote p sub) /\
-  (~ In c_at (remote_string p sub) -> parse_final_source (remote_string p sub) = Ok (ARemote p sub)).
+  parse_final_source (remote_string p sub) = Ok (ARemote p sub).
 Proof.
   intros Hw Ho Hs. pose proof (remote_round_trip p sub Hw) as Hrt.
   destruct (wf_remote_text p sub Hw) as (typ' & scheme & host & path & query & Htext & Hparts & Hlt & Hls).
   pose proof (module_source_rejects_structured _ _ _ _ _ _ Hparts Hlt Hls) as Hrej.
   rewrite <- Htext in Hrej.
-  (* the text starts with "type::scheme:/" *)
   destruct Hparts as [Ht Hsc _ _ _ _ _ _ _ _ _ _ _ _].
-  destruct (scheme_ok_chars _ Hsc) as [Hsne Hscc].
-  set (h0 := type_prefix typ' ++ scheme ++ [c_colon]).
-  assert (Hhead : exists rest, remote_string p sub = h0 ++ slash :: rest).
-  { rewrite Htext. unfold remote_text, h0, css. eexists. rewrite <- !app_assoc. cbn [app]. reflexivity. }
+  destruct (pre_facts typ' scheme Ht Hsc Hlt Hls) as (Pcsf & Pq & Pslash & Pat & Pascii & Plow).
+  set (pre := type_prefix typ' ++ scheme) in *.
+  set (body := host ++ path ++ sub_part sub ++ query_part query).
+  assert (Hshape : remote_string p sub = pre ++ css ++ body).
+  { rewrite Htext. unfold remote_text, pre, body. now rewrite <- !app_assoc. }
+  set (h0 := pre ++ [c_colon]).
+  assert (Hhead : remote_string p sub = h0 ++ slash :: slash :: body).
+  { rewrite Hshape. unfold h0, css. now rewrite <- app_assoc. }
   assert (Hh0 : ~ In slash h0).
-  { unfold h0. intros H. apply in_app_or in H as [H|H].
-    - unfold type_prefix in H. destruct typ' as [|t0 tr]; [destruct H|].
-      apply in_app_or in H as [H|[H|[H|[]]]]; try discriminate. revert H. apply (alnum_not_in _ _ Ht). auto.
-    - apply in_app_or in H as [H|[H|[]]]; [|discriminate]. revert H. apply (scheme_chars_not_in _ _ Hscc). auto. }
+  { unfold h0. intros H. apply in_app_or in H as [H|[H|[]]]; [contradiction|discriminate]. }
   assert (Hlf : is_local_form (remote_string p sub) = false).
-  { destruct Hhead as [rest ->]. destruct (is_local_form (h0 ++ slash :: rest)) eqn:E; [|reflexivity]. exfalso.
-    assert (Hlast : last h0 dot = c_colon).
-    { unfold h0. rewrite !app_assoc. apply last_last. }
+  { rewrite Hhead. destruct (is_local_form (h0 ++ slash :: slash :: body)) eqn:E; [|reflexivity]. exfalso.
+    assert (Hlast : last h0 dot = c_colon) by (unfold h0; apply last_last).
     destruct (local_form_head _ _ Hh0 E) as [H|H]; rewrite H in Hlast; discriminate. }
   assert (Hne : is_empty (remote_string p sub) = false).
-  { destruct Hhead as [rest ->]. unfold h0. destruct (type_prefix typ'); [destruct scheme; [congruence|reflexivity]|reflexivity]. }
+  { rewrite Hhead. unfold h0. destruct pre; reflexivity. }
   split.
   - unfold parse_source. rewrite Ho, Hs, Hne, Hlf. cbn [negb]. unfold looks_like_registry. rewrite Hrej. cbn [rbind].
     now rewrite Hrt.
-  - intros Hat. unfold parse_final_source. rewrite Ho, Hs, Hne, Hlf. cbn [negb].
-    unfold looks_like_final_registry. rewrite (final_parts_no_at _ Hat). cbn [fst].
-    replace (looks_like_registry []) with (@Ok bool false) by (vm_compute; reflexivity). cbn [rbind].
-    now rewrite Hrt.
+  - unfold parse_final_source. rewrite Ho, Hs, Hne, Hlf. cbn [negb].
+    assert (Hlfr : looks_like_final_registry (remote_string p sub) = Ok false).
+    { unfold looks_like_final_registry, final_parts.
+      destruct (final_split (remote_string p sub)) as [[[a v] sub']|] eqn:Efs.
+      - destruct (final_split_prefix _ _ _ _ Efs) as [rest Erest].
+        rewrite Hshape, app_assoc in Erest. symmetry in Erest.
+        assert (Hnat : ~ In c_at (pre ++ css)).
+        { intros H. apply in_app_or in H as [H|H]; [contradiction|]. cbn in H. destruct H as [H|[H|[H|[]]]]; discriminate. }
+        destruct (app_prefix_notin c_at (pre ++ css) a rest body Erest Hnat) as [a' ->].
+        cbn [fst]. unfold looks_like_registry. rewrite <- !app_assoc.
+        now rewrite (module_source_rejects_schemed pre (a' ++ [slash; slash] ++ sub') Pcsf Pq Pslash Pascii Plow).
+      - cbn [fst]. vm_compute. reflexivity. }
+    rewrite Hlfr. cbn [rbind]. now rewrite Hrt.
 Qed.
 
 (* the hypotheses are satisfiable, for each kind *)
